@@ -139,9 +139,6 @@ func plans(tp tierParams) []plan {
 		if tp.full && c.Rst != has(T, T, T) {
 			// thorough: the all-resets configuration (64 classes) gets the large budget
 			bud = 5000
-			if i == 1 {
-				bud = 70000
-			}
 		}
 		add(c, one, tp.lcap, bud)
 	}
@@ -191,7 +188,7 @@ func plans(tp tierParams) []plan {
 					if (s.on != nr) || tp.full {
 						// pairwise in quick: two-level variants on the off-diagonal
 						bud := tp.budFlap
-						if (!tp.full && f.H != 3) || (tp.full && (b || f.H != 3)) {
+						if (!tp.full && f.H != 3) || (tp.full && (b || nr || f.H != 3)) {
 							bud = tp.budFlap / 4
 						}
 						add(Cfg{Has: has(F, T, T), Sco: s.on, Scod: s.d, NoRec: nr, Flap: T, Flo: f.lo, Fhi: f.hi, H: f.H, Batch: b}, one, tp.lcapFlap, bud)
